@@ -44,7 +44,9 @@ class L:
         owner = d.get('cls', k)
         if k in ('source', 'transform'):
             for name, spec in d.get('fields', {}).items():
-                self.defs[name] = (self.fname(spec, owner, name), list(spec.get('args', [])))
+                # an argument annotated `Output` reads the layer's OWN output of that name: written 'out:<name>' here
+                self.defs[name] = (self.fname(spec, owner, name),
+                                   [('out:' + a if a in spec.get('outargs', []) else a) for a in spec.get('args', [])])
                 if spec.get('opt'):
                     self.opt.add(name)
             for name, spec in d.get('params', {}).items():
@@ -97,7 +99,7 @@ class L:
         out = set()
         for _, args in self.defs.values():
             if isinstance(args, list):
-                out |= {a for a in args if not a.startswith('_')}
+                out |= {a for a in args if not a.startswith('_') and not a.startswith('out:')}
         for p in self.params.values():
             if p[0] == 'fn':
                 out |= {a for a in p[2] if not a.startswith('_')}
@@ -112,10 +114,16 @@ class L:
 
     def used_params(self, name):
         """private parameters (functions) the output `name` transitively uses"""
-        out, todo = [], [a for a in self.defs[name][1] if isinstance(a, str) and a.startswith('_')] \
+        out, todo = [], [a for a in self.defs[name][1] if isinstance(a, str) and (a.startswith('_') or a.startswith('out:'))] \
             if isinstance(self.defs[name][1], list) else []
+        seen_out = set()
         while todo:
             p = todo.pop()
+            if p.startswith('out:'):
+                if p not in seen_out and p[4:] in self.defs and isinstance(self.defs[p[4:]][1], list):
+                    seen_out.add(p)
+                    todo.extend(a for a in self.defs[p[4:]][1] if a.startswith('_') or a.startswith('out:'))
+                continue
             q = self.params.get(p)
             if q is None or q[0] != 'fn' or p in out:
                 continue
@@ -126,7 +134,10 @@ class L:
     def _deps_args(self, args, seen):
         out = set()
         for a in args:
-            if a.startswith('_'):
+            if a.startswith('out:'):
+                if a not in seen and a[4:] in self.defs and self.defs[a[4:]][0] != '$const':
+                    out |= self._deps_args(self.defs[a[4:]][1], seen + (a,))
+            elif a.startswith('_'):
                 p = self.params.get(a)
                 if p is None:
                     raise RefError('FieldError', f'parameter {a} is not defined')
@@ -185,7 +196,11 @@ def sig(layers):
                 raise RefError('GraphError', 'cycle')
             ts, miss = [], set()
             for a in args:
-                if a.startswith('_'):
+                if a.startswith('out:'):
+                    if a[4:] not in l.defs:
+                        raise RefError('FieldError', f'output {a[4:]}')
+                    t = term_of(*l.defs[a[4:]], depth=depth + 1)
+                elif a.startswith('_'):
                     p = l.params.get(a)
                     if p is None:
                         raise RefError('FieldError', f'parameter {a}')
